@@ -5,6 +5,7 @@ import (
 	"reflect"
 	"regexp"
 	"sort"
+	"sync/atomic"
 	"strconv"
 
 	at "github.com/DanielSvub/anytype"
@@ -105,6 +106,89 @@ func c14List(dg []int) (msg, sig string) {
 	return "", ""
 }
 
+// c14Edited: views queried, the list changed in place, views queried AGAIN on the same list (seeded change
+// C14-10a: the common kind of the elements is cached by the All* predicates and Delete does not drop the cache).
+// One edit out of the full menu, then optionally one removal; the views are queried before and after each.
+type c14Edit struct {
+	name string
+	do   func(l at.List, alpha []interface{})
+	dg   []int
+}
+
+func c14EditMenu(dg []int, removalsOnly bool) []c14Edit {
+	var out []c14Edit
+	n := len(dg)
+	without := func(i int) []int { return append(append([]int{}, dg[:i]...), dg[i+1:]...) }
+	for i := 0; i < n; i++ {
+		i := i
+		out = append(out, c14Edit{fmt.Sprintf("Delete(%d)", i), func(l at.List, _ []interface{}) { l.Delete(i) }, without(i)})
+		out = append(out, c14Edit{fmt.Sprintf("UnsetTF(#%d)", i), func(l at.List, _ []interface{}) { l.UnsetTF(fmt.Sprintf("#%d", i)) }, without(i)})
+	}
+	if n > 0 {
+		out = append(out, c14Edit{"Pop()", func(l at.List, _ []interface{}) { l.Pop() }, without(n - 1)})
+	}
+	if removalsOnly {
+		return out
+	}
+	out = append(out, c14Edit{"Clear()", func(l at.List, _ []interface{}) { l.Clear() }, []int{}})
+	rev := make([]int, n)
+	for i := range dg {
+		rev[n-1-i] = dg[i]
+	}
+	out = append(out, c14Edit{"Reverse()", func(l at.List, _ []interface{}) { l.Reverse() }, rev})
+	for d := 0; d < 15; d++ {
+		d := d
+		out = append(out, c14Edit{"Add(" + k15Names[d] + ")", func(l at.List, a []interface{}) { l.Add(a[d]) }, append(append([]int{}, dg...), d)})
+		out = append(out, c14Edit{"Insert(0," + k15Names[d] + ")", func(l at.List, a []interface{}) { l.Insert(0, a[d]) }, append([]int{d}, dg...)})
+		for i := 0; i < n; i++ {
+			i := i
+			rp := append([]int{}, dg...)
+			rp[i] = d
+			out = append(out, c14Edit{fmt.Sprintf("Replace(%d,%s)", i, k15Names[d]), func(l at.List, a []interface{}) { l.Replace(i, a[d]) }, rp})
+			out = append(out, c14Edit{fmt.Sprintf("SetTF(#%d,%s)", i, k15Names[d]), func(l at.List, a []interface{}) { l.SetTF(fmt.Sprintf("#%d", i), a[d]) }, rp})
+		}
+	}
+	return out
+}
+
+func c14ListEdited(dg []int) (msg, sig string, evals int) {
+	valsOf := func(alpha []interface{}, dg []int) []interface{} {
+		v := make([]interface{}, len(dg))
+		for i, d := range dg {
+			v[i] = alpha[d]
+		}
+		return v
+	}
+	for _, e1 := range c14EditMenu(dg, false) {
+		seconds := append([]c14Edit{{name: ""}}, c14EditMenu(e1.dg, true)...)
+		for _, e2 := range seconds {
+			alpha := k15()
+			l := at.NewList(valsOf(alpha, dg)...)
+			if m, _ := c14Views(l, dg, valsOf(alpha, dg)); m != "" {
+				return "", "", evals // the plain space reports it
+			}
+			if pn, _ := try(func() { e1.do(l, alpha) }); pn {
+				continue // mutators are judged by C05
+			}
+			evals++
+			if m, s := c14Views(l, e1.dg, valsOf(alpha, e1.dg)); m != "" {
+				return fmt.Sprintf("views had been queried on %v, then %s: %s", names15(dg), e1.name, m), "after-edit/" + s, evals
+			}
+			if e2.name == "" {
+				continue
+			}
+			if pn, _ := try(func() { e2.do(l, alpha) }); pn {
+				continue
+			}
+			evals++
+			if m, s := c14Views(l, e2.dg, valsOf(alpha, e2.dg)); m != "" {
+				return fmt.Sprintf("views had been queried on %v, then %s, queried, then %s: %s", names15(dg), e1.name, e2.name, m), "after-edit/" + s, evals
+			}
+		}
+	}
+	return "", "", evals
+}
+
 func c14ListHist(dg []int, h int) (msg, sig string) {
 	alpha := k15()
 	vals := make([]interface{}, len(dg))
@@ -117,6 +201,12 @@ func c14ListHist(dg []int, h int) (msg, sig string) {
 	} else {
 		l = buildHist(h, vals, "pad")
 	}
+	return c14Views(l, dg, vals)
+}
+
+// c14Views compares every typed view of l with the reference selection from (dg, vals), the digits and
+// values l is expected to hold.
+func c14Views(l at.List, dg []int, vals []interface{}) (msg, sig string) {
 	names := names15(dg)
 	sub := func(k int) []interface{} {
 		var out []interface{}
@@ -518,6 +608,40 @@ func runC14(c *ev.Ctx) {
 	if done < total {
 		c.Cut("list space cut by deadline")
 	}
+	// views re-queried after in-place edits of the same list
+	editLen := 2
+	if c.Thorough() {
+		editLen = 3
+	}
+	etotal, eoffs := powSum(15, 0, editLen)
+	var editEvals int64
+	edone := par.Range(c.Workers, etotal, 4, stop, func(w int, idx int64) {
+		n, rest := decodeLen(idx, 0, eoffs)
+		dg := digits(rest, 15, n, nil)
+		var msg, sig string
+		var k int
+		if pn, pv := try(func() { msg, sig, k = c14ListEdited(dg) }); pn {
+			msg, sig = fmt.Sprintf("a typed view of the edited list %v panicked: %v", names15(dg), pv), "after-edit/views/panic"
+		}
+		c.Eval(k)
+		atomic.AddInt64(&editEvals, int64(k))
+		c.Nontrivial(fmt.Sprint("e", dg))
+		if msg != "" {
+			dg2 := append([]int{}, dg...)
+			c.Violate(ev.Violation{Sig: sig, Msg: msg, Witness: map[string]interface{}{"list": names15(dg2)}}, func() string {
+				s := ""
+				if pn, _ := try(func() { _, s, _ = c14ListEdited(dg2) }); pn {
+					return "after-edit/views/panic"
+				}
+				return s
+			})
+		}
+	})
+	if edone < etotal {
+		c.Cut("edited-list space cut by deadline")
+	}
+	c.Set("views_after_in_place_edits", map[string]interface{}{"start_lists_max_len": editLen, "view_comparisons_after_an_edit": editEvals,
+		"rule": "every list of that length over the 15-value alphabet: all views queried, one edit out of Delete(i)/UnsetTF(#i)/Pop/Clear/Reverse/Add(x)/Insert(0,x)/Replace(i,x)/SetTF(#i,x) for every i and x, all views queried again on the same list, then optionally one more removal and a third query"})
 	allKeys := []string{"a", "b", "c", "d"}
 	for nk := 0; nk <= maxKeys; nk++ {
 		// key subsets of size nk (in order), values 13^nk
